@@ -10,5 +10,6 @@ INVARIANTS
   BlocksAreFull
   PendingBounded
   AtMostOneHeader
+  HandlerAccounting
   Emit
 CHECK_DEADLOCK FALSE
